@@ -67,6 +67,13 @@ static void one_case(uint64_t N, uint64_t nrows, uint64_t ncols, uint64_t a_size
     mmax = ((int64_t)1 << (tot - ba)) - 1;
   }
   for (uint64_t i = 0; i < nrows * ncols * N; i++) mat[i] = magn ? ((rng_u64(r) & 1) ? mmax : -mmax) : rng_range(r, -mmax, mmax);
+  // sparse matrices: some entries are exactly the zero polynomial (the prepared matrix buffer is dirty: NaN pattern)
+  if (rep % 3 == 1 || (rep == 0 && (nrows + ncols + a_size) % 3 == 0))
+    for (uint64_t e = 0; e < nrows * ncols; e++)
+      if ((rng_u64(r) & 3) < 2) {
+        memset(mat + e * N, 0, N * 8);
+        cnt("zero_polynomial_matrix_entries", 1);
+      }
   for (uint64_t l = 0; l < a_size; l++)
     for (uint64_t i = 0; i < N; i++) zvec_limb(&A, l)[i] = magn ? ((rng_u64(r) & 1) ? amax : -amax) : rng_range(r, -amax, amax);
   snap_t sm, sa, sp;
